@@ -33,7 +33,10 @@ def theme_spec():
 
 def op_strategy(depth=0):
     t = st.integers(0, 3)
-    leaf = st.one_of(st.tuples(st.just("push"), t, st.booleans()).map(list), st.tuples(st.just("push"), t, st.booleans()).map(list), st.just(["pop"]), st.just(["pop"]))
+    # ["edit", theme, name, palette index | None]: the theme's public styles dict is edited in place (an entry set or removed); pushes made later see the edit,
+    # entries already on the stack were made from the dict as it was
+    edit = st.tuples(st.just("edit"), t, st.sampled_from(NAMES), st.one_of(st.none(), st.integers(0, len(GS.PALETTE) - 1))).map(list)
+    leaf = st.one_of(st.tuples(st.just("push"), t, st.booleans()).map(list), st.tuples(st.just("push"), t, st.booleans()).map(list), st.just(["pop"]), st.just(["pop"]), edit)
     if depth >= 2:
         return leaf
     # the 6th element: enter the same context object a second time inside itself (a stored `ctx = console.use_theme(t)` used by a recursive helper)
@@ -85,29 +88,34 @@ class Stack(Part):
         default_defs = {k: GS.style_view(v) for k, v in DEFAULT_STYLES.items()}
         if spec["base"] is None:
             con = sut(Console, file=io.StringIO(), _environ={})
-            stack = [(default_defs, False)]
+            stack = [(default_defs, 0)]
         else:
             con = sut(Console, file=io.StringIO(), theme=themes[spec["base"]], _environ={})
-            stack = [(tdefs[spec["base"]], False)]
+            stack = [(tdefs[spec["base"]], 0)]   # the console uses its initial theme's dict as it is (no copy): edits of that theme show at once
         stats = {"fell2": False, "deep": False}
 
         def expected(name):
-            depth = 0
-            for defs, inh in reversed(stack):
-                if name in defs:
-                    if depth >= 2:
-                        stats["fell2"] = True
-                    return ("style", defs[name])
-                if not inh:
-                    break
-                depth += 1
+            # an inheriting push merges the entry below it into the new entry at push time, so the top entry alone answers a lookup
+            defs, depth = stack[-1]
+            if name in defs:
+                if depth >= 2:
+                    stats["fell2"] = True
+                return ("style", defs[name])
             try:
                 return ("style", GS.style_view(Style.parse(name)))
             except Exception:  # noqa
                 return ("missing",)
 
+        def pushed(ti, inh):
+            """The entry a push creates: (definitions, number of inheriting pushes it was merged through)."""
+            below, d = stack[-1]
+            if inh:
+                return ({**below, **tdefs[ti]}, d + 1)
+            return (dict(tdefs[ti]), 0)
+
         quiet = set(spec.get("quiet") or [])
         step = [0]
+        edits = [0]
 
         def look(where):
             # some steps are not followed by any lookup (a lookup may itself leave something behind that only a later, different stack reveals)
@@ -139,9 +147,24 @@ class Stack(Part):
                     return
                 if op[0] == "pop" and floor > 1 and len(stack) <= floor:
                     continue
+                if op[0] == "edit":
+                    _, ti, name, pi = op
+                    # the model's dict is edited in place too: a pushed theme is copied (merged) into the stack, but the console's initial theme is used as it is,
+                    # so an edit of that theme shows at once while stack entries made by push_theme keep the definitions they were made from
+                    if pi is None:
+                        themes[ti].styles.pop(name, None)
+                        tdefs[ti].pop(name, None)
+                    else:
+                        themes[ti].styles[name] = GS.build_style(GS.PALETTE[pi])
+                        tdefs[ti][name] = GS.spec_view(GS.PALETTE[pi])
+                    edits[0] += 1
+                    ctx.cls("theme-edited-in-place")
+                    if not look("edit"):
+                        return
+                    continue
                 if op[0] == "push":
                     sut(con.push_theme, themes[op[1]], inherit=op[2])
-                    stack.append((tdefs[op[1]], op[2]))
+                    stack.append(pushed(op[1], op[2]))
                     if not look("push:inherit=%s" % op[2]):
                         return
                 elif op[0] == "pop":
@@ -166,16 +189,17 @@ class Stack(Part):
                     _, ti, inh, body, raises = op[:5]
                     twice = len(op) > 5 and op[5]
                     before = snapshot()
+                    edits_before = edits[0]
                     depth_before = len(stack)
                     cm = con.use_theme(themes[ti], inherit=inh)
                     try:
                         with cm:
-                            stack.append((tdefs[ti], inh))
+                            stack.append(pushed(ti, inh))
                             if not look("use_theme:inherit=%s" % inh):
                                 return
                             if twice:
                                 with cm:
-                                    stack.append((tdefs[ti], inh))
+                                    stack.append(pushed(ti, inh))
                                     if not look("use_theme-reentered"):
                                         return
                                 stack.pop()
@@ -189,17 +213,20 @@ class Stack(Part):
                                 sut(con.pop_theme)
                                 stack.pop()
                             if raises:
+                                # every third raising block is left by a ThemeStackError that comes from elsewhere (another console refusing to pop its base theme)
+                                if (step[0] % 3) == 0:
+                                    raise ThemeStackError("Unable to pop base theme")
                                 raise Boom()
-                    except Boom:
+                    except (Boom, ThemeStackError):
                         pass
                     except SutError:
                         raise
                     stack.pop()
                     if not look("use_theme-exit%s" % ("-by-exception" if raises else "")):
                         return
-                    if snapshot() != before:
+                    if snapshot() != before and edits[0] == edits_before:
                         raise AssertionError("model not restored")
-                if len(stack) >= 3 and any(not inh for _, inh in stack[1:]):
+                if len(stack) >= 3 and any(d == 0 for _, d in stack[1:]):
                     stats["deep"] = True
 
         if not look("start"):
